@@ -1,4 +1,6 @@
 """Shared driver for the App-model checks (C10, C15 part, C18)."""
+import os
+
 from .. import appscen, impl, tlc
 from ..ctx import Ctx, Machinery
 
@@ -86,6 +88,51 @@ def classify_reject(rec, o, t, v):
         return ("C15" if kinds != "-" else "C10"), "trace-reject:file_end:%s:%s:coe=%s" % (sc["cmd"], kinds, "T" if sc["coe"] else "F")
     prop = "C15" if kinds != "-" else ("C10" if sc["cmd"] in ("fix",) else "C18")
     return prop, "trace-reject:%s:%s:%s:coe=%s" % (ev, sc["cmd"], kinds, "T" if sc["coe"] else "F")
+
+
+def suite_traces(ctx, tier, props):
+    """The repository's own tests as a trace source: every command line they drive (probes on) is validated against Trace_App.
+    props: which properties this check reports ({"C18"}: exit table / error never masked; {"C10"}: changed <=> announced <=> code)."""
+    import glob
+    from .. import suite
+    paths = sorted(os.path.relpath(p_, impl.REPO) for p_ in glob.glob(os.path.join(impl.REPO, "test", "test_main*.py")))
+    paths += ["test/api", "test/test_listfiles.py", "test/test_exception_handling.py"]
+    if tier == "thorough":
+        paths.append("test/rules")
+    runs_, tail = suite.record(paths, workers=8)
+    traces, kept = [], []
+    for r in runs_:
+        t = suite.frame(r)
+        if t:
+            traces.append(t)
+            kept.append(r)
+    if len(traces) < 100:
+        raise Machinery("only %d runs of the repository's tests could be framed as traces (%s)" % (len(traces), tail))
+    tr_, verdicts = appscen.validate_traces(traces, "suite")
+    ctx.ev.add_tlc("Trace_App (%d command lines driven by the repository's own tests)" % len(traces), tr_)
+    ctx.ev.cov["traces_validated_against_impl"] += len(traces)
+    ctx.ev.cov["evaluations"] += len(traces)
+    ctx.ev.parts["repository_test_runs_validated"] = {"pytest": tail, "runs_recorded": len(runs_), "framed": len(traces)}
+    for r, t, v in zip(kept, traces, verdicts):
+        if v["v"] == "ACCEPT":
+            continue
+        rb = next(e for e in r if e.get("ev") == "run_begin")
+        cmd = {"scan-stdin": "stdin"}.get(rb.get("command"), rb.get("command"))
+        st = v.get("state", {})
+        if v["v"] == "INVFAIL":
+            prop = {"NoTempAtExit": "C15", "ErrorNeverMasked": "C18", "ExitFollowsTable": "C18"}.get(v["what"], "C10")
+            sig = "suite-trace-invariant:%s:%s" % (v["what"], cmd)
+        elif v["what"] == "exit" and st.get("ntemps", 0):
+            prop, sig = "C15", "trace-reject:exit:temp-left:%s:suite:coe=%s" % (cmd, "T" if rb.get("continue_on_error") else "F")
+        elif v["what"] in ("exit", "proc_exit"):
+            prop, sig = "C18", "suite-trace-reject:%s:%s" % (v["what"], cmd)
+        else:
+            prop, sig = ("C10" if cmd == "fix" else "C18"), "suite-trace-reject:%s:%s" % (v["what"], cmd)
+        if prop in props:
+            ctx.violation(sig, {"command": rb, "verdict": v, "trace_head": [e for e in t if e["ev"] != "failure"][:12], "trace_tail": t[-4:]})
+        else:
+            ctx.ev.parts.setdefault("suite_rejections_of_other_properties", {})
+            ctx.ev.parts["suite_rejections_of_other_properties"][sig] = ctx.ev.parts["suite_rejections_of_other_properties"].get(sig, 0) + 1
 
 
 def replay(payload):
